@@ -606,5 +606,5 @@ Fixpoint indentLevel (ws : list bool) (i : N) : N :=
   | false :: r => indentLevel r (i + 1)
   | true :: r =>
       indentLevel r (if N.eqb (i mod TABSTOP) 0 then i + TABSTOP
-                     else ((i + TABSTOP - 1) / TABSTOP) * TABSTOP)   (* ROUND_UP(i, TABSTOP) *)
+                     else i + TABSTOP - i mod TABSTOP)   (* ROUND_UP(i, TABSTOP), i % TABSTOP != 0 *)
   end.
